@@ -11,6 +11,10 @@ conditions that are visible in the code:
   OBSERVED-USED     eval_up_to marks the observed expression as "value used" (set_observed_expr_value_used) with the very id
                     it then stores in Env.stop_at_expr_id, before any evaluation starts: otherwise a statement-position
                     expression pushes no value and (c)'s `last()` reports the value of an earlier expression.
+  DONE-MEANS-VALUE  no path of eval_expr both marks the stepped expression done and schedules an unevaluated sub-expression
+                    (what (c) relies on).
+  EVERY-ARM-COMPLETES every expression kind's arm of eval_expr marks its entry done, schedules it again with a later state, or
+                    always fails; otherwise the stop test can never fire for that kind.
   INNERMOST         the id is chosen by walking the ids found at the offset innermost-first (reversed iteration) and taking
                     the first that names an expression.
   STOP-ID-SCOPED    every path of eval_up_to that stored Some(id) in Env.stop_at_expr_id stores None again before it
@@ -36,10 +40,100 @@ def fp_of(f, op):
     return None, []
 
 
+def done_means_value(P, res, rule="DONE-MEANS-VALUE"):
+    """a step of eval_expr that marks the expression it was given as done (`*expr_state = EvaluatedSubexpressions`) must not, on
+    the same path, schedule a not-yet-evaluated sub-expression: the interpreter loop treats `done` as "the value is on the
+    stack" (the stop-at-expression return of eval-up-to and of every session request reads it right after the step).
+    Shared by C27 and C03 (a parenthesised chain marked done before its inner expression ran answers with a stale value)."""
+    from . import c06 as _c06
+    ev = P.require_fn("eval::eval_expr")
+    st_param = [i for i in range(1, ev.argc + 1) if "ExpressionState" in ev.local_ty(i) and ev.local_ty(i).startswith("&mut")]
+    if len(st_param) != 1:
+        raise M.MissingAnchor("eval::eval_expr: the `&mut ExpressionState` parameter")
+    marks = []
+    for bi, b in enumerate(ev.blocks):
+        for st in b["stmts"]:
+            if st.get("s") == "assign" and st["place"]["l"] == st_param[0] and st["place"]["p"] == ["deref"]:
+                r = ev.root_of(st["rv"]["a"]) if st["rv"]["k"] == "use" else ("rv", bi, 0, st)
+                v = r[3]["rv"].get("variant") if r[0] == "rv" and r[3]["rv"]["k"] == "agg" else None
+                marks.append((bi, v, st.get("span")))
+    res.floor(rule, "assignments to *expr_state in eval_expr", len(marks), 5)
+    sched = [bi for bi, t in ev.calls() if _c06.pushed_state(ev, t) == "NotEvaluated"]
+    res.floor(rule, "pushes of NotEvaluated entries in eval_expr", len(sched), 10)
+    bad = 0
+    for bi, v, sp in marks:
+        if v != "EvaluatedSubexpressions":
+            if v is None:
+                res.bad(rule, "eval::eval_expr # state-mark # unknown", "eval_expr stores a computed state into *expr_state; the rule cannot tell whether the step is done", ev.loc(sp))
+                bad += 1
+            continue
+        after = D.reach_from(ev, [bi])
+        before = {b for b in sched if bi in D.reach_from(ev, [b])}
+        hit = [b for b in sched if b in after and b != bi] + sorted(before)
+        same = [b for b in sched if b == bi]
+        if hit or same:
+            bad += 1
+            arm = D.arm_label(ev, bi, enums={"Expression_", "ExpressionState"})
+            res.bad(rule, "eval::eval_expr # %s # done-but-schedules" % arm,
+                    "the %s arm marks the expression as done and, on the same path, schedules a sub-expression that has not run: the loop then "
+                    "treats the previous top of the value stack as this expression's value (eval-up-to and every session request stop on it)" % arm, ev.loc(sp))
+    if not bad:
+        res.ok(rule, "no path of eval_expr both marks the expression done and schedules an unevaluated sub-expression (%d marks, %d schedules)" % (len(marks), len(sched)))
+
+
+def every_arm_completes(P, res, rule="EVERY-ARM-COMPLETES"):
+    """the stop test fires only on an entry whose state is `done`; an expression kind whose arm of eval_expr neither marks the
+    entry done, nor schedules the expression again with a later state (itself or through an eval:: helper), nor always fails,
+    is never seen as done: eval-up-to on such an expression runs on and reports the value of something else."""
+    from . import c06 as _c06
+    ev = P.require_fn("eval::eval_expr")
+    st_param = [i for i in range(1, ev.argc + 1) if "ExpressionState" in ev.local_ty(i) and ev.local_ty(i).startswith("&mut")]
+    top = None
+    for sw in D.enum_switches(ev):
+        if sw["ety"].endswith("Expression_") and (top is None or ev.rpo.index(sw["bb"]) < ev.rpo.index(top["bb"])):
+            top = sw
+    if top is None or len(st_param) != 1:
+        raise M.MissingAnchor("eval::eval_expr: the match on Expression_ / the state parameter")
+    allt = dict(top["by_target"])
+    if top["otherwise_variants"]:
+        allt[top["otherwise"]] = top["otherwise_variants"]
+
+    def later_push(fn, depth=2):
+        for bi, t in fn.calls():
+            ps = _c06.pushed_state(fn, t)
+            if ps is not None and ps != "NotEvaluated":
+                return True
+            n = M.callee_name(t) or ""
+            if depth and n.startswith("eval::") and n in P.funcs and n != fn.path and later_push(P.funcs[n], depth - 1):
+                return True
+        return False
+    n = 0
+    for tgt, names in sorted(allt.items(), key=lambda x: x[1]):
+        reg = D.edge_dominated(ev, top["bb"], tgt)
+        marks = any(st.get("s") == "assign" and st["place"]["l"] == st_param[0] and st["place"]["p"] == ["deref"] for b in reg for st in ev.blocks[b]["stmts"])
+        own = any(ev.blocks[b]["term"]["t"] == "call" and _c06.pushed_state(ev, ev.blocks[b]["term"]) not in (None, "NotEvaluated") for b in reg)
+        helper = any(ev.blocks[b]["term"]["t"] == "call" and (M.callee_name(ev.blocks[b]["term"]) or "") in P.funcs and (M.callee_name(ev.blocks[b]["term"]) or "").startswith("eval::")
+                     and later_push(P.funcs[M.callee_name(ev.blocks[b]["term"])]) for b in reg)
+        rets = [b for b in reg if ev.blocks[b]["term"]["t"] in ("return", "goto")]
+        builds_err = any(st.get("s") == "assign" and st["rv"]["k"] == "agg" and st["rv"].get("variant") == "Err" for b in reg for st in ev.blocks[b]["stmts"])
+        scheds = any(ev.blocks[b]["term"]["t"] == "call" and _c06.pushed_state(ev, ev.blocks[b]["term"]) is not None for b in reg)
+        for nm in names:
+            n += 1
+            key = "eval::eval_expr # Expression_::%s # never-done" % nm
+            if marks or own or helper or (builds_err and not scheds):
+                res.ok(rule, "Expression_::%s: %s" % (nm, "marks the entry done" if marks else "schedules itself again with a later state" if own or helper else "always an error"))
+            else:
+                res.bad(rule, key, "the %s arm of eval_expr never marks its entry done and never schedules it again: eval-up-to on a `%s` expression never stops "
+                        "at it and reports the value of whatever runs last instead" % (nm, nm), ev.loc(ev.blocks[tgt]["term"].get("span") if ev.blocks[tgt]["stmts"] == [] else ev.blocks[tgt]["stmts"][0].get("span")))
+    res.floor(rule, "arms of eval_expr's match on Expression_", n, 25)
+
+
 def run(ctx, res):
     P = ctx.P
     L = EL.locate(P)
     f = L.f
+    done_means_value(P, res)
+    every_arm_completes(P, res)
     # ---- STOP-AFTER-VALUE
     id_sw = None
     for sw in D.bool_switches(f):
